@@ -1,4 +1,4 @@
-(* C20 - the handshake: in a quiescent history every midi-use-CC that reaches
+(* C20 - the handshake: in a nocross history every midi-use-CC that reaches
    the non-realtime side finds a queued address and carries a controller that
    is in no mapping entry there (so no controller ever has two entries) *)
 From Coq Require Import List ZArith Bool Lia.
@@ -195,7 +195,7 @@ Qed.
 
 Definition storage_step (o : option store) (out : list rmsg) (o' : option store) : Prop :=
   (out = [] /\ o' = o) \/
-  (exists s', out = [RBind s'] /\ o' = Some s' /\
+  (exists s', out = [RBind s' (-1)] /\ o' = Some s' /\
      incl (mids (mapping s')) (mids (omap o)) /\ NoDup (mids (mapping s'))).
 
 Lemma unmap_fact : forall n a c n' out, nrt_unmap n a c = Some (n', out) ->
@@ -253,7 +253,7 @@ Lemma useFreeID_fact : forall ports n id a c q n' out,
   learnQ n = (a, c) :: q ->
   nrt_useFreeID ports n id = Some (n', out) ->
   ~ In id (mids (omap (nstorage n))) -> NoDup (mids (omap (nstorage n))) ->
-  exists s', out = [RBind s'] /\ nstorage n' = Some s' /\ learnQ n' = q /\
+  exists s', out = [RBind s' id] /\ nstorage n' = Some s' /\ learnQ n' = q /\
     incl (mids (mapping s')) (id :: mids (omap (nstorage n))) /\ NoDup (mids (mapping s')).
 Proof.
   intros ports n id a c q n' out Q H F N. unfold nrt_useFreeID in H. rewrite Q in H.
@@ -290,8 +290,15 @@ Proof.
   eapply incl_tran; eassumption.
 Qed.
 
-Lemma useFreeID_empty : forall ports n id, learnQ n = [] -> nrt_useFreeID ports n id = Some (n, []).
-Proof. intros ports n id Q. unfold nrt_useFreeID. rewrite Q. reflexivity. Qed.
+(* no address waits: the answer is the unchanged mapping *)
+Lemma useFreeID_empty : forall ports n id, learnQ n = [] ->
+  exists s', nrt_useFreeID ports n id =
+             Some ({| nstorage := Some s'; inv_map := inv_map n; learnQ := [] |}, [RBind s' id]) /\
+             mapping s' = omap (nstorage n).
+Proof.
+  intros ports n id Q. unfold nrt_useFreeID. rewrite Q.
+  eexists. split; [reflexivity |]. destruct (nstorage n); reflexivity.
+Qed.
 
 (* ---- what the realtime operations do --------------------------------------- *)
 Lemma store_handleCC_mapping : forall s id v s' m, store_handleCC s id v = Some (s', m) ->
@@ -339,11 +346,12 @@ Proof.
   inversion H; reflexivity.
 Qed.
 
-Lemma deliver_bind_fact : forall r ns r', rt_deliver r (RBind ns) = Some r' ->
-  omap (rstorage r') = mapping ns /\ pq_pop (pending r) = Some (pending r') /\ watch r' = watch r.
+Lemma deliver_bind_fact : forall r ns ans r', rt_deliver r (RBind ns ans) = Some r' ->
+  omap (rstorage r') = mapping ns /\
+  (if ans =? -1 then Some (pending r) else pq_pop (pending r)) = Some (pending r') /\ watch r' = watch r.
 Proof.
-  intros r ns r' H. cbn [rt_deliver] in H.
-  destruct (pq_pop (pending r)) as [p' |]; [| discriminate].
+  intros r ns ans r' H. cbn [rt_deliver] in H.
+  destruct (if ans =? -1 then Some (pending r) else pq_pop (pending r)) as [p' |]; [| discriminate].
   destruct (rstorage r) as [old |].
   - destruct (cloneValues ns old) as [ns' |] eqn:C; [| discriminate].
     inversion H; subst. cbn [rstorage pending watch omap]. apply cloneValues_mapping in C. auto.
@@ -360,14 +368,14 @@ Inductive chain : list mapent -> list rmsg -> list tag -> list Z -> Prop :=
 | c_w prev ch tg A : chain prev ch tg A -> chain prev (RWatch :: ch) (TW :: tg) A
 | c_r prev ch tg A : chain prev ch tg A -> chain prev (RUnwatch :: ch) (TR :: tg) A
 | c_f prev s ch tg A : incl (mids (mapping s)) (mids prev) -> NoDup (mids (mapping s)) ->
-    chain (mapping s) ch tg A -> chain prev (RBind s :: ch) (TBf :: tg) A
-| c_a prev s id ch tg A : incl (mids (mapping s)) (id :: mids prev) -> NoDup (mids (mapping s)) ->
-    chain (mapping s) ch tg A -> chain prev (RBind s :: ch) (TBa :: tg) (id :: A).
+    chain (mapping s) ch tg A -> chain prev (RBind s (-1) :: ch) (TBf :: tg) A
+| c_a prev s id ch tg A : id <> -1 -> incl (mids (mapping s)) (id :: mids prev) -> NoDup (mids (mapping s)) ->
+    chain (mapping s) ch tg A -> chain prev (RBind s id :: ch) (TBa :: tg) (id :: A).
 
 Fixpoint lastm (prev : list mapent) (ch : list rmsg) : list mapent :=
   match ch with
   | [] => prev
-  | RBind s :: r => lastm (mapping s) r
+  | RBind s _ :: r => lastm (mapping s) r
   | _ :: r => lastm prev r
   end.
 
@@ -385,7 +393,7 @@ Proof.
     destruct Hx; [left; auto | right; assumption].
   - intros x Hx. apply IHchain in Hx. apply in_app_iff in Hx. apply in_app_iff.
     destruct Hx as [Hx | Hx]; [| right; right; assumption].
-    apply H in Hx. destruct Hx; [right; left; assumption | left; assumption].
+    apply H0 in Hx. destruct Hx; [right; left; assumption | left; assumption].
 Qed.
 
 Lemma chain_last_nodup : forall prev ch tg A, chain prev ch tg A -> NoDup (mids prev) ->
@@ -485,6 +493,43 @@ Proof.
   cbn [map app trok]. rewrite IH, existsb_app. cbn. rewrite orb_true_r. reflexivity.
 Qed.
 
+(* no answering bind behind a foreign one *)
+Fixpoint baf (tg : list tag) : bool :=
+  match tg with
+  | [] => true
+  | TBf :: r => negb (existsb is_TBa r) && baf r
+  | _ :: r => baf r
+  end.
+
+Lemma baf_tail : forall t tg, baf (t :: tg) = true -> baf tg = true.
+Proof. intros t tg H. destruct t; cbn [baf] in H; try assumption. apply andb_true_iff in H. tauto. Qed.
+
+Lemma baf_app : forall a b, baf a = true -> baf b = true ->
+  (existsb is_TBf a = true -> existsb is_TBa b = false) -> baf (a ++ b) = true.
+Proof.
+  induction a as [| t a IH]; intros b Ha Hb Hx; [exact Hb |].
+  destruct t; cbn [app baf existsb is_TBf orb] in *; auto.
+  apply andb_true_iff in Ha. destruct Ha as [E T]. apply andb_true_iff. split.
+  - rewrite existsb_app. apply negb_true_iff in E. rewrite E, (Hx eq_refl). reflexivity.
+  - apply IH; auto.
+Qed.
+
+Lemma existsb_TBa_TRs : forall {X} (q : list X) t, is_TBa t = false ->
+  existsb is_TBa (map (fun _ => TR) q ++ [t]) = false.
+Proof. induction q as [| x q IH]; intros t Ht; cbn; [rewrite Ht; reflexivity | apply IH; exact Ht]. Qed.
+
+Lemma baf_TRs_f : forall {X} (q : list X), baf (map (fun _ => TR) q ++ [TBf]) = true.
+Proof. induction q as [| x q IH]; [reflexivity | exact IH]. Qed.
+
+Lemma chain_count : forall prev ch tg A, chain prev ch tg A -> zlen A = count_TBa tg.
+Proof.
+  unfold zlen, count_TBa. induction 1; cbn [filter is_TBa length]; try assumption; try reflexivity.
+  rewrite !Nat2Z.inj_succ. f_equal. assumption.
+Qed.
+
+Lemma chain_noTBa : forall prev ch tg A, chain prev ch tg A -> existsb is_TBa tg = false -> A = [].
+Proof. induction 1; cbn [existsb is_TBa orb]; intro E; auto; discriminate. Qed.
+
 (* ---- the invariant ----------------------------------------------------------- *)
 Section Handshake.
   Variable U : list Z.                        (* the controllers of the history *)
@@ -501,14 +546,19 @@ Section Handshake.
     g_rnodup : NoDup (mids (omap (rstorage r)));
     g_last : omap nst = lastm (omap (rstorage r)) cr;
     g_disj : forall x, In x (mids (omap (rstorage r))) -> ~ In x P;
-    g_quiet : existsb is_TBf tg = true -> P = [];
+    g_quiet : existsb is_TBf tg = true -> cn = [];
+    g_baf : baf tg = true;
     g_watch : wsim (watch r) tg = Some (zlen lq - zlen cn);
     g_trok : trok tg = true;
     g_wpos : 0 <= watch r
   }.
 
+  (* P: the pending controllers, oldest first *)
+  Definition GP (w : world) (pend : Z) (tg : list tag) (P : list Z) : Prop :=
+    exists A, GI (nstorage (wn w)) (learnQ (wn w)) (wr w) (chN w) (chR w) pend tg P A.
+
   Definition G (w : world) (pend : Z) (tg : list tag) : Prop :=
-    exists P A, GI (nstorage (wn w)) (learnQ (wn w)) (wr w) (chN w) (chR w) pend tg P A.
+    exists P, GP w pend tg P.
 
   Lemma G0 : G world0 0 [].
   Proof.
@@ -525,9 +575,9 @@ Section Handshake.
 
   (* a foreign bind is appended while nothing is pending *)
   Lemma GI_bind_f : forall nst lq r cn cr pend tg P A s,
-    GI nst lq r cn cr pend tg P A -> P = [] ->
+    GI nst lq r cn cr pend tg P A -> cn = [] ->
     incl (mids (mapping s)) (mids (omap nst)) -> NoDup (mids (mapping s)) ->
-    GI (Some s) lq r cn (cr ++ [RBind s]) pend (tg ++ [TBf]) P A.
+    GI (Some s) lq r cn (cr ++ [RBind s (-1)]) pend (tg ++ [TBf]) P A.
   Proof.
     intros nst lq r cn cr pend tg P A s I HP Hi Hn. destruct I.
     constructor; try assumption.
@@ -535,6 +585,7 @@ Section Handshake.
       constructor; [rewrite <- g_last0; assumption | assumption | constructor].
     - rewrite lastm_app. reflexivity.
     - intros _. exact HP.
+    - apply baf_app; [assumption | reflexivity | intros _; reflexivity].
     - rewrite wsim_app, g_watch0. reflexivity.
     - apply trok_app; [assumption | reflexivity].
   Qed.
@@ -548,6 +599,7 @@ Section Handshake.
     - rewrite <- (app_nil_r A). apply chain_app; [assumption | auto |]. repeat constructor.
     - rewrite lastm_app. assumption.
     - rewrite existsb_app. cbn. rewrite orb_false_r. assumption.
+    - apply baf_app; [assumption | reflexivity | intros _; reflexivity].
     - rewrite wsim_app, g_watch0. cbn [wsim]. f_equal. unfold zlen. rewrite app_length. cbn. lia.
     - apply trok_app; [assumption | reflexivity].
   Qed.
@@ -566,21 +618,29 @@ Section Handshake.
   Proof. induction q; intros; cbn; auto. Qed.
 
   Lemma GI_clear : forall nst lq r cn cr pend tg P A,
-    GI nst lq r cn cr pend tg P A -> P = [] ->
-    GI (Some empty_store) [] r cn (cr ++ map (fun _ => RUnwatch) lq ++ [RBind empty_store])
+    GI nst lq r cn cr pend tg P A -> cn = [] ->
+    GI (Some empty_store) [] r cn (cr ++ map (fun _ => RUnwatch) lq ++ [RBind empty_store (-1)])
        pend (tg ++ map (fun _ => TR) lq ++ [TBf]) P A.
   Proof.
     intros nst lq r cn cr pend tg P A I HP. destruct I.
-    assert (Hcn : cn = []).
-    { rewrite HP in g_P0. symmetry in g_P0. apply app_eq_nil in g_P0. tauto. }
     constructor; try assumption.
     - rewrite !app_assoc. rewrite <- (app_nil_r A). apply chain_app; [apply chain_app_TRs; assumption | auto |].
       constructor; [intros x [] | constructor | constructor].
     - rewrite !app_assoc, lastm_app. reflexivity.
     - intros _. exact HP.
+    - apply baf_app; [assumption | apply baf_TRs_f | intros _; apply existsb_TBa_TRs; reflexivity].
     - rewrite wsim_app, g_watch0. subst cn. cbn [zlen length]. rewrite Z.sub_0_r.
       rewrite wsim_app, wsim_TRs by lia. cbn [wsim]. f_equal. unfold zlen. cbn. lia.
     - apply trok_app; [assumption | apply trok_TRs_f].
+  Qed.
+
+  (* as many pending controllers as answering binds in flight: no midi-use-CC is under way *)
+  Lemma GI_cn_nil : forall nst lq r cn cr pend tg P A,
+    GI nst lq r cn cr pend tg P A -> pend = count_TBa tg -> cn = [].
+  Proof.
+    intros nst lq r cn cr pend tg P A I E. destruct I.
+    pose proof (chain_count _ _ _ _ g_chain0) as C. subst P. unfold zlen in *.
+    rewrite app_length in g_pend0. destruct cn; [reflexivity | cbn [length] in g_pend0; lia].
   Qed.
 End Handshake.
 
@@ -588,30 +648,56 @@ End Handshake.
 Definition qstep (pend : Z) (ch : list tag) (e : event) (r : list obs) : option (Z * list tag) :=
   match e with
   | EMap _ _ | EUnmap _ _ | EClear =>
-      if existsb is_OB r && negb (pend =? 0) then None else Some (pend, ch ++ op_tags r)
+      if existsb is_OB r && negb (pend =? count_TBa ch) then None else Some (pend, ch ++ op_tags r)
   | ECC _ _ _ _ =>
       if existsb is_OU r then (if existsb is_TBf ch then None else Some (pend + 1, ch))
       else Some (pend, ch)
   | EDelN => Some (pend, ch ++ ans_tags r)
   | EDelR => match ch with
              | [] => Some (pend, ch)
-             | t :: ch' => Some ((if is_TB t && (0 <? pend) then pend - 1 else pend), ch')
+             | t :: ch' => Some ((if is_TBa t && (0 <? pend) then pend - 1 else pend), ch')
              end
   end.
 
-Lemma quiescent_from_step : forall pend ch e es r rs,
-  quiescent_from pend ch (e :: es) (r :: rs) =
-  match qstep pend ch e r with Some (p', c') => quiescent_from p' c' es rs | None => false end.
+Lemma nocross_from_step : forall pend ch e es r rs,
+  nocross_from pend ch (e :: es) (r :: rs) =
+  match qstep pend ch e r with Some (p', c') => nocross_from p' c' es rs | None => false end.
 Proof.
-  intros. destruct e; cbn [quiescent_from qstep].
-  1-3: destruct (existsb is_OB r && negb (pend =? 0)); reflexivity.
+  intros. destruct e; cbn [nocross_from qstep].
+  1-3: destruct (existsb is_OB r && negb (pend =? count_TBa ch)); reflexivity.
   - destruct (existsb is_OU r); [destruct (existsb is_TBf ch) |]; reflexivity.
   - reflexivity.
   - destruct ch; reflexivity.
 Qed.
 
+(* ... and of the pending set the records imply (MidiSpec.pending_from) *)
+Definition ou_ids (r : list obs) : list Z := flat_map (fun o => match o with OU i => [i] | _ => [] end) r.
+
+Definition pstep (P : list Z) (ch : list tag) (e : event) (r : list obs) : list Z :=
+  match e with
+  | ECC _ _ _ _ => P ++ ou_ids r
+  | EDelR => match ch with t :: _ => if is_TBa t then tl P else P | [] => P end
+  | _ => P
+  end.
+
+Lemma pending_from_step : forall pend P ch e es r rs p' c',
+  qstep pend ch e r = Some (p', c') ->
+  pending_from P ch (e :: es) (r :: rs) = pending_from (pstep P ch e r) c' es rs.
+Proof.
+  intros pend P ch e es r rs p' c' Q. destruct e; cbn [pending_from pstep qstep] in *.
+  1-3: destruct (existsb is_OB r && negb (pend =? count_TBa ch)); [discriminate | inversion Q; reflexivity].
+  - destruct (existsb is_OU r); [destruct (existsb is_TBf ch); [discriminate |] |]; inversion Q; reflexivity.
+  - inversion Q; reflexivity.
+  - destruct ch; inversion Q; reflexivity.
+Qed.
+
+Lemma ou_ids_cc : forall (m : option msg) (used : bool) id,
+  ou_ids (match m with Some x => [OM x] | None => [] end ++ (if used then [OU id] else [])) =
+  if used then [id] else [].
+Proof. intros. destruct m, used; reflexivity. Qed.
+
 Definition out_tags (out : list rmsg) : list tag :=
-  map (fun m => match m with RWatch => TW | RUnwatch => TR | RBind _ => TBf end) out.
+  map (fun m => match m with RWatch => TW | RUnwatch => TR | RBind _ _ => TBf end) out.
 
 Lemma op_tags_out : forall out, op_tags (map obs_of_rmsg out) = out_tags out.
 Proof. induction out as [| m out IH]; [reflexivity |]. destruct m; cbn; f_equal; apply IH. Qed.
@@ -644,37 +730,38 @@ Section Step.
   Lemma G_op : forall nst lq r cn cr pend tg P A nst' out,
     GI U nst lq r cn cr pend tg P A ->
     storage_step nst out nst' ->
-    (existsb is_OB (map obs_of_rmsg out) && negb (pend =? 0) = false) ->
+    (existsb is_OB (map obs_of_rmsg out) && negb (pend =? count_TBa tg) = false) ->
     GI U nst' lq r cn (cr ++ out) pend (tg ++ out_tags out) P A.
   Proof.
     intros nst lq r cn cr pend tg P A nst' out I S Q.
     destruct S as [[-> ->] | [s' [-> [-> [Hi Hn]]]]].
     - cbn. rewrite !app_nil_r. exact I.
-    - cbn in Q. destruct (Z.eqb_spec pend 0) as [E | E]; [| discriminate].
+    - cbn [map obs_of_rmsg existsb is_OB orb andb] in Q.
+      destruct (Z.eqb_spec pend (count_TBa tg)) as [E | E]; [| discriminate].
       apply GI_bind_f with (nst := nst); try assumption.
-      rewrite (g_pend _ _ _ _ _ _ _ _ _ _ I) in E. unfold zlen in E. destruct P; [reflexivity | cbn in E; lia].
+      eapply GI_cn_nil; eassumption.
   Qed.
 
   Lemma existsb_OB_app : forall a b, existsb is_OB (map obs_of_rmsg (a ++ b)) =
     existsb is_OB (map obs_of_rmsg a) || existsb is_OB (map obs_of_rmsg b).
   Proof. intros. rewrite map_app, existsb_app. reflexivity. Qed.
 
-  Lemma G_step : forall w pend tg e w' r p' tg',
-    G U w pend tg -> ev_ok U e ->
+  Lemma GP_step : forall w pend tg P e w' r p' tg',
+    GP U w pend tg P -> ev_ok U e ->
     step ports w e = Some (w', r) -> qstep pend tg e r = Some (p', tg') ->
-    pre_ok w e /\ G U w' p' tg'.
+    pre_ok w e /\ GP U w' p' tg' (pstep P tg e r).
   Proof.
-    intros w pend tg e w' r p' tg' [P [A I]] Hev Hs Hq.
+    intros w pend tg P e w' r p' tg' [A I] Hev Hs Hq.
     pose proof (GI_nst_nodup _ _ _ _ _ _ _ _ _ _ I) as Nn.
     pose proof (g_rnodup _ _ _ _ _ _ _ _ _ _ I) as Nr.
-    destruct e; cbn [step] in Hs; cbn [qstep] in Hq.
+    destruct e; cbn [step] in Hs; cbn [qstep] in Hq; cbn [pstep].
     - (* map *)
       split; [repeat split; assumption |].
       unfold nrt_result in Hs. destruct (nrt_map (wn w) a c) as [[n' out] |] eqn:M; [| discriminate].
       inversion Hs; subst w' r; clear Hs. cbn [app] in Hq.
-      destruct (existsb is_OB (map obs_of_rmsg out) && negb (pend =? 0)) eqn:Q; [discriminate |].
+      destruct (existsb is_OB (map obs_of_rmsg out) && negb (pend =? count_TBa tg)) eqn:Q; [discriminate |].
       inversion Hq; subst p' tg'; clear Hq. rewrite op_tags_out.
-      exists P, A. cbn [wn wr chN chR].
+      exists A. cbn [wn wr chN chR].
       destruct (map_fact _ _ _ _ _ M Nn) as [[-> ->] | [out0 [-> [LQ S]]]].
       + cbn. rewrite !app_nil_r. exact I.
       + rewrite LQ. unfold out_tags. rewrite map_app, !app_assoc. cbn [map].
@@ -685,9 +772,9 @@ Section Step.
       split; [repeat split; assumption |].
       unfold nrt_result in Hs. destruct (nrt_unmap (wn w) a c) as [[n' out] |] eqn:M; [| discriminate].
       inversion Hs; subst w' r; clear Hs. cbn [app] in Hq.
-      destruct (existsb is_OB (map obs_of_rmsg out) && negb (pend =? 0)) eqn:Q; [discriminate |].
+      destruct (existsb is_OB (map obs_of_rmsg out) && negb (pend =? count_TBa tg)) eqn:Q; [discriminate |].
       inversion Hq; subst p' tg'; clear Hq. rewrite op_tags_out.
-      exists P, A. cbn [wn wr chN chR].
+      exists A. cbn [wn wr chN chR].
       destruct (unmap_fact _ _ _ _ _ M Nn) as [LQ S]. rewrite LQ.
       apply G_op with (nst := nstorage (wn w)); assumption.
     - (* clear *)
@@ -695,12 +782,12 @@ Section Step.
       cbn [nrt_clear nrt_result] in Hs. inversion Hs; subst w' r; clear Hs. cbn [app] in Hq.
       rewrite map_app, existsb_app in Hq. cbn [map obs_of_rmsg existsb is_OB] in Hq.
       rewrite orb_true_r in Hq. cbn [andb] in Hq.
-      destruct (Z.eqb_spec pend 0) as [E | E]; [| discriminate]. cbn [negb] in Hq.
+      destruct (Z.eqb_spec pend (count_TBa tg)) as [E | E]; [| discriminate]. cbn [negb] in Hq.
       inversion Hq; subst p' tg'; clear Hq.
       rewrite op_tags_clear.
-      exists P, A. cbn [wn wr chN chR nstorage learnQ].
+      exists A. cbn [wn wr chN chR nstorage learnQ].
       apply GI_clear with (nst := nstorage (wn w)); try assumption.
-      rewrite (g_pend _ _ _ _ _ _ _ _ _ _ I) in E. unfold zlen in E. destruct P; [reflexivity | cbn in E; lia].
+      eapply GI_cn_nil; eassumption.
     - (* CC *)
       split; [repeat split; assumption |].
       destruct Hev as [HU Hpos]. set (id := cc_id par chan nrpn) in *.
@@ -709,7 +796,7 @@ Section Step.
       destruct (handleCC_fact _ _ _ _ _ _ H) as [Hm [Hf Ht]].
       assert (EU : existsb is_OU (match m with Some x => [OM x] | None => [] end ++ (if used then [OU id] else [])) = used).
       { destruct m, used; reflexivity. }
-      rewrite EU in Hq. destruct used.
+      rewrite EU in Hq. rewrite ou_ids_cc. destruct used.
       + destruct (Ht eq_refl) as [-> [Hnot [Hhas [Hw0 [Hins Hw]]]]].
         destruct (existsb is_TBf tg) eqn:ETB; [discriminate |].
         inversion Hq; subst p' tg'; clear Hq.
@@ -722,7 +809,7 @@ Section Step.
           pose proof (NoDup_incl_length N2 I2) as L. cbn [length] in L. unfold zlen. lia. }
         destruct (pq_insert_spec _ _ id g_rep0) as [q' [Eq Rq]]; try assumption; try lia.
         rewrite Hins in Eq. inversion Eq; subst q'; clear Eq.
-        exists (P ++ [id]), A. cbn [wn wr chN chR].
+        exists A. cbn [wn wr chN chR].
         constructor.
         * assumption.
         * unfold zlen in *. rewrite app_length. cbn. lia.
@@ -737,6 +824,7 @@ Section Step.
           -- eapply g_disj0; eassumption.
           -- apply Hnot. exact Hx.
         * intro. congruence.
+        * assumption.
         * rewrite Hw. assert (NTR : ~ In TR tg).
           { intro HTR. apply (trok_in _ g_trok0) in HTR. congruence. }
           replace (watch (wr w) - 1) with (watch (wr w) + -1) by lia.
@@ -745,7 +833,7 @@ Section Step.
         * assumption.
         * lia.
       + destruct (Hf eq_refl) as [Hp Hw]. inversion Hq; subst p' tg'; clear Hq.
-        exists P, A. cbn [wn wr chN chR]. destruct I.
+        rewrite app_nil_r. exists A. cbn [wn wr chN chR]. destruct I.
         constructor; try assumption; try (rewrite Hm; assumption); try (rewrite Hp; assumption);
           try (rewrite Hw; assumption).
     - (* deliver to nRT *)
@@ -753,7 +841,7 @@ Section Step.
       destruct (chN w) as [| id rest] eqn:EN.
       + split; [repeat split; assumption |].
         inversion Hs; subst w' r; clear Hs. cbn [ans_tags flat_map app]. rewrite app_nil_r.
-        exists P, A. rewrite EN. exact I.
+        exists A. rewrite EN. exact I.
       + destruct I.
         assert (HinP : In id P) by (rewrite g_P0; apply in_app_iff; right; left; reflexivity).
         assert (Fresh : ~ In id (mids (omap (nstorage (wn w))))).
@@ -772,13 +860,16 @@ Section Step.
         inversion Hs; subst w' r; clear Hs.
         destruct (useFreeID_fact _ _ _ _ _ _ _ _ LQ UF Fresh Nn) as [s' [-> [Hst [Hlq [Hincl Hnd]]]]].
         cbn [map obs_of_rmsg app ans_tags flat_map hd_error].
-        exists P, (A ++ [id]). cbn [wn wr chN chR]. rewrite Hst, Hlq.
+        exists (A ++ [id]). cbn [wn wr chN chR]. rewrite Hst, Hlq.
         constructor; try assumption.
         * rewrite g_P0, <- app_assoc. reflexivity.
         * apply chain_app; [assumption | auto |].
-          constructor; [rewrite <- g_last0; assumption | assumption | constructor].
+          assert (Hid : id <> -1).
+          { pose proof g_pos0 as Gp. rewrite Forall_forall in Gp. specialize (Gp _ HinP). lia. }
+          constructor; [exact Hid | rewrite <- g_last0; assumption | assumption | constructor].
         * rewrite lastm_app. reflexivity.
-        * rewrite existsb_app. cbn. rewrite orb_false_r. assumption.
+        * rewrite existsb_app. cbn. rewrite orb_false_r. intro E. apply g_quiet0 in E. discriminate.
+        * apply baf_app; [assumption | reflexivity | intro E; apply g_quiet0 in E; discriminate].
         * rewrite wsim_app, g_watch0. cbn [wsim]. f_equal. unfold zlen. cbn [length]. lia.
         * apply trok_app; [assumption | reflexivity].
     - (* deliver to RT *)
@@ -788,55 +879,68 @@ Section Step.
       + assert (HH : tg = [] /\ A = []) by (inversion g_chain0; auto). destruct HH as [-> ->].
         inversion Hs; subst w' r; clear Hs.
         inversion Hq; subst p' tg'; clear Hq.
-        exists ([] ++ chN w), []. rewrite ER. constructor; try assumption. reflexivity.
+        exists []. rewrite ER. constructor; try assumption. reflexivity.
       + destruct (rt_deliver (wr w) m) as [r' |] eqn:D; [| discriminate].
         inversion Hs; subst w' r; clear Hs. cbn [wn wr chN chR].
-        inversion g_chain0 as [| ? ? tgr ? C | ? ? tgr ? C | ? s ? tgr ? Hi Hn C | ? s id ? tgr A' Hi Hn C]; subst.
+        inversion g_chain0 as [| ? ? tgr ? C | ? ? tgr ? C | ? s ? tgr ? Hi Hn C | ? s id ? tgr A' Hid Hi Hn C]; subst.
         * (* add-watch *)
-          inversion Hq; subst p' tg'; clear Hq. cbn [is_TB andb].
+          inversion Hq; subst p' tg'; clear Hq. cbn [is_TBa andb].
           cbn [rt_deliver] in D. inversion D; subst r'; clear D.
-          exists (A ++ chN w), A. cbn [rstorage pending watch] in *.
+          exists A. cbn [rstorage pending watch] in *.
           constructor; try assumption; cbn [wn wr chN chR rstorage pending watch]; try assumption; try lia; try reflexivity.
         * (* remove-watch *)
-          inversion Hq; subst p' tg'; clear Hq. cbn [is_TB andb].
+          inversion Hq; subst p' tg'; clear Hq. cbn [is_TBa andb].
           cbn [rt_deliver] in D. inversion D; subst r'; clear D.
           cbn [wsim] in g_watch0. destruct (Z.ltb_spec 0 (watch (wr w))) as [Hw | Hw]; [| discriminate].
-          exists (A ++ chN w), A. cbn [rstorage pending watch] in *.
+          exists A. cbn [rstorage pending watch] in *.
           constructor; try assumption; cbn [wn wr chN chR rstorage pending watch]; try assumption; try reflexivity.
           -- destruct (Z.eqb_spec (watch (wr w)) 0); [lia | assumption].
           -- eapply trok_tail; eassumption.
           -- destruct (Z.eqb_spec (watch (wr w)) 0); lia.
         * (* foreign bind: nothing is pending *)
-          assert (HP : A ++ chN w = []) by (apply g_quiet0; reflexivity).
-          assert (HA : A = [] /\ chN w = []) by (apply app_eq_nil in HP; exact HP).
-          destruct HA as [-> HN].
+          assert (HN : chN w = []) by (apply g_quiet0; reflexivity).
+          assert (HA : A = []).
+          { apply (chain_noTBa _ _ _ _ C). pose proof g_baf0 as Bf. cbn [baf] in Bf.
+            apply andb_true_iff in Bf. destruct Bf as [E _]. apply negb_true_iff in E. exact E. }
+          subst A.
           inversion Hq; subst p' tg'; clear Hq.
-          destruct (deliver_bind_fact _ _ _ D) as [Hm [Hpop Hw]].
+          destruct (deliver_bind_fact _ _ _ _ D) as [Hm [Hpop Hw]].
           rewrite HN in *. cbn [app] in *.
-          rewrite (pq_pop_nil _ g_rep0) in Hpop. inversion Hpop as [Hp].
-          cbn [zlen length Z.of_nat]. cbn [is_TB andb]. rewrite Z.ltb_irrefl.
-          exists [], []. cbn [wn wr chN chR]. cbn [lastm] in g_last0. cbn [wsim] in g_watch0.
+          cbn [Z.eqb Pos.eqb Z.opp] in Hpop. inversion Hpop as [Hp].
+          cbn [zlen length Z.of_nat]. cbn [is_TBa andb].
+          exists []. cbn [wn wr chN chR]. cbn [lastm] in g_last0. cbn [wsim] in g_watch0.
           constructor; try assumption; try (rewrite <- Hp; assumption); try (rewrite Hm; assumption);
             try (rewrite Hw; assumption); try reflexivity;
-            try (intros x _ []); try (eapply trok_tail; eassumption).
+            try (intros x _ []); try (eapply trok_tail; eassumption); try (intros _; reflexivity);
+            try (eapply baf_tail; eassumption).
         * (* answering bind: its controller is the oldest pending one *)
-          destruct (deliver_bind_fact _ _ _ D) as [Hm [Hpop Hw]].
+          destruct (deliver_bind_fact _ _ _ _ D) as [Hm [Hpop Hw]].
           cbn [app] in *.
+          destruct (Z.eqb_spec id (-1)) as [E1 | _]; [contradiction |].
           destruct (pq_pop_spec _ _ _ g_rep0) as [q' [Eq Rq]]. rewrite Hpop in Eq. inversion Eq; subst q'; clear Eq.
           assert (Hz : 0 <? zlen (id :: A' ++ chN w) = true) by (unfold zlen; cbn [length]; apply Z.ltb_lt; lia).
-          rewrite Hz in Hq. cbn [is_TB andb] in Hq.
+          rewrite Hz in Hq. cbn [is_TBa andb] in Hq.
           replace (zlen (id :: A' ++ chN w) - 1) with (zlen (A' ++ chN w)) in Hq
             by (unfold zlen; cbn [length]; lia).
           inversion Hq; subst p' tg'; clear Hq.
           inversion g_nodup0 as [| ? ? Hni Nd]; subst.
-          exists (A' ++ chN w), A'. cbn [wn wr chN chR]. cbn [lastm] in g_last0. cbn [wsim] in g_watch0.
+          exists A'. cbn [wn wr chN chR]. cbn [lastm] in g_last0. cbn [wsim] in g_watch0.
           constructor; try assumption; try (rewrite Hm; assumption); try (rewrite Hw; assumption); try reflexivity.
           -- inversion g_pos0; assumption.
           -- intros x Hx. apply g_inU0. right. exact Hx.
           -- rewrite Hm. intros x Hx Hin. apply Hi in Hx. destruct Hx as [<- | Hx].
              ++ contradiction.
              ++ apply (g_disj0 x Hx). right. exact Hin.
-          -- intro E. assert (HF : id :: A' ++ chN w = []) by (apply g_quiet0; cbn; exact E). discriminate.
+  Qed.
+
+  Lemma G_step : forall w pend tg e w' r p' tg',
+    G U w pend tg -> ev_ok U e ->
+    step ports w e = Some (w', r) -> qstep pend tg e r = Some (p', tg') ->
+    pre_ok w e /\ G U w' p' tg'.
+  Proof.
+    intros w pend tg e w' r p' tg' [P HG] Hev Hs Hq.
+    destruct (GP_step _ _ _ _ _ _ _ _ _ HG Hev Hs Hq) as [Hpre HG'].
+    split; [exact Hpre | eexists; exact HG'].
   Qed.
 End Step.
 
@@ -877,14 +981,14 @@ Definition ccids (evs : list event) : list Z :=
 Lemma G_run : forall U ports, (length U <= 32)%nat ->
   forall evs w pend tg tr fin,
   G U w pend tg -> Forall (ev_ok U) evs ->
-  run ports w evs = (tr, fin) -> quiescent_from pend tg evs tr = true ->
+  run ports w evs = (tr, fin) -> nocross_from pend tg evs tr = true ->
   fresh_run ports w evs.
 Proof.
   intros U ports US. induction evs as [| e es IH]; intros w pend tg tr fin HG Hev Hr Hq; [exact Logic.I |].
   cbn [fresh_run]. split; [eapply G_pre; eassumption |].
   cbn [run] in Hr. destruct (step ports w e) as [[w' o] |] eqn:S; [| exact Logic.I].
   destruct (run ports w' es) as [tr' fin'] eqn:R. inversion Hr; subst tr fin; clear Hr.
-  rewrite quiescent_from_step in Hq.
+  rewrite nocross_from_step in Hq.
   destruct (qstep pend tg e o) as [[p' tg'] |] eqn:Q; [| discriminate].
   inversion Hev; subst.
   destruct (G_step U US ports _ _ _ _ _ _ _ _ HG H1 S Q) as [_ HG'].
@@ -902,13 +1006,66 @@ Proof.
   - apply IH; [intros x Hx; apply Hi; right; exact Hx | assumption].
 Qed.
 
-(* In a quiescent history over at most 32 distinct controllers: whenever a
+(* the pending set along a nocross history is the one the records imply *)
+Lemma GP_run : forall U ports, (length U <= 32)%nat ->
+  forall evs w pend tg P tr w',
+  GP U w pend tg P -> Forall (ev_ok U) evs ->
+  run ports w evs = (tr, Some w') -> nocross_from pend tg evs tr = true ->
+  exists pend' tg', GP U w' pend' tg' (pending_from P tg evs tr).
+Proof.
+  intros U ports US. induction evs as [| e es IH]; intros w pend tg P tr w2 HG Hev Hr Hq.
+  - cbn [run] in Hr. inversion Hr; subst tr w2. exists pend, tg. exact HG.
+  - cbn [run] in Hr. destruct (step ports w e) as [[w' o] |] eqn:S; [| discriminate].
+    destruct (run ports w' es) as [tr' fin'] eqn:R. inversion Hr; subst tr fin'; clear Hr.
+    rewrite nocross_from_step in Hq.
+    destruct (qstep pend tg e o) as [[p' tg'] |] eqn:Q; [| discriminate].
+    inversion Hev; subst.
+    destruct (GP_step U US ports _ _ _ _ _ _ _ _ _ HG H1 S Q) as [_ HG'].
+    rewrite (pending_from_step _ _ _ _ _ _ _ _ _ Q).
+    eapply IH; eassumption.
+Qed.
+
+Lemma filter_len_le : forall {X} (f : X -> bool) (l : list X), (length (filter f l) <= length l)%nat.
+Proof. induction l as [| x l IH]; cbn [filter length]; [lia |]. destruct (f x); cbn [length]; lia. Qed.
+
+Lemma GP0 : forall U, GP U world0 0 [] [].
+Proof.
+  intro U. exists []. constructor; cbn; try apply pq_rep0; try constructor; try reflexivity; try lia; try tauto.
+  intros x [].
+Qed.
+
+(* In a nocross history over at most 32 distinct controllers the realtime
+   side's pending ring holds, oldest first, exactly the controllers the
+   records imply (MidiSpec.pending_of - what the classifier of the run-time
+   check computes): each once, and they are the controllers whose answering
+   bind is on its way (A, at most one per message in the queue) followed by
+   those whose midi-use-CC is on its way - the controllers "whose answer is
+   outstanding".  The class bind-crosses-use-cc is: this fails for the
+   controller concerned. *)
+Theorem nocross_pending : forall ports evs tr w U,
+  (length U <= 32)%nat -> incl (ccids evs) U -> Forall (fun x => 0 <= x) (ccids evs) ->
+  run ports world0 evs = (tr, Some w) -> nocross evs tr = true ->
+  pq_rep (pending (wr w)) (pending_of evs tr) /\ NoDup (pending_of evs tr) /\
+  exists A, pending_of evs tr = A ++ chN w /\ (length A <= length (chR w))%nat.
+Proof.
+  intros ports evs tr w U US Hi Hp Hr Hq.
+  destruct (GP_run U ports US evs world0 0 [] [] tr w (GP0 U) (ev_ok_all _ _ Hi Hp) Hr Hq)
+    as [pend' [tg' [A I]]].
+  fold (pending_of evs tr) in I. destruct I.
+  split; [assumption |]. split; [assumption |].
+  exists A. split; [assumption |].
+  rewrite <- (chain_len _ _ _ _ g_chain0).
+  pose proof (chain_count _ _ _ _ g_chain0) as C. unfold zlen, count_TBa in C.
+  apply Nat2Z.inj in C. rewrite C. apply filter_len_le.
+Qed.
+
+(* In a nocross history over at most 32 distinct controllers: whenever a
    midi-use-CC <id> is delivered to the non-realtime side, an address is
    queued and id occurs in no entry of the current snapshot; no snapshot on
    either side ever holds a controller twice. *)
-Theorem quiescent_fresh : forall ports evs tr fin U,
+Theorem nocross_fresh : forall ports evs tr fin U,
   (length U <= 32)%nat -> incl (ccids evs) U -> Forall (fun x => 0 <= x) (ccids evs) ->
-  run ports world0 evs = (tr, fin) -> quiescent evs tr = true ->
+  run ports world0 evs = (tr, fin) -> nocross evs tr = true ->
   fresh_run ports world0 evs.
 Proof.
   intros ports evs tr fin U US Hi Hp Hr Hq.
@@ -919,10 +1076,10 @@ Qed.
 
 (* the hypotheses are satisfiable by a history with two learns, a fine
    controller and an unMap *)
-Lemma quiescent_fresh_nonvacuous :
+Lemma nocross_fresh_nonvacuous :
   exists ports evs tr fin U,
     (length U <= 32)%nat /\ incl (ccids evs) U /\ Forall (fun x => 0 <= x) (ccids evs) /\
-    run ports world0 evs = (tr, Some fin) /\ quiescent evs tr = true /\
+    run ports world0 evs = (tr, Some fin) /\ nocross evs tr = true /\
     assigned_targets 5 tr = [(1, true)] /\ assigned_targets 6 tr = [(1, false)].
 Proof.
   exists [ {| pint := true;  pmin := (0, 0);  pmax := (127, 0) |};
